@@ -43,6 +43,10 @@ Cases == { [Base EXCEPT !.alg = a, !.sans = s] : a \in Algs, s \in Sans }
          \cup { [Base EXCEPT !.country = c, !.cn = n, !.org = o] : c \in Countries, n \in CommonNames, o \in Orgs }
          \cup { [Base EXCEPT !.names = np, !.dir = d, !.alg = a] : np \in NamePairs, d \in Dirs, a \in {"$default", "ed25519"} }
          \cup { [Base EXCEPT !.clientAuth = ca, !.serverAuth = sa, !.sans = s] : ca \in Bool, sa \in Bool, s \in {<<>>, <<"dns", "ip4">>} }
+         (* names that look like something else (a host, an address, a mailbox, a URL) stay what they were given as: a common name is  *)
+         (* never also an alternative name, whichever purposes are asked for and whether or not alternative names are given            *)
+         \cup { [Base EXCEPT !.cn = n, !.org = o, !.clientAuth = ca, !.serverAuth = sa, !.sans = s] :
+                  n \in {"host-like", "ip-like", "email-like", "url-like"}, o \in {"$default", "host-like"}, ca \in Bool, sa \in Bool, s \in {<<>>, <<"dns">>, <<"ip4">>} }
          \cup { [Base EXCEPT !.country = c, !.names = np, !.dir = d] : c \in {"nonprintable-gt", "nonascii"}, np \in NamePairs, d \in Dirs }
          \cup { [Base EXCEPT !.alg = a, !.sans = <<"nonascii">>, !.dir = d] : a \in Algs, d \in Dirs }
 (* length sweeps: an offending (non-ASCII, two-octet) character after k ASCII letters, so that it sits at and across every *)
